@@ -210,6 +210,8 @@ def dump(dbs, f, **_options):
                         name=signal.name,
                         offset=str(signal.get_startbit()),
                         length=str(int(signal.size)))
+                    if not signal.is_little_endian:
+                        multiplexor_elem.set('endianess', "big")
                     value = lxml.etree.Element('Value')
                     if float(signal.min) != 0:
                         value.set('min', "%g" % signal.min)  # type: ignore
@@ -389,6 +391,8 @@ def load(f, **options):
                     signal_size = int(multiplex.get('length'))
 
                 is_little_endian = True
+                if multiplex.get('endianess') == 'big':
+                    is_little_endian = False
 
                 min_value = None
                 max_value = None
